@@ -1,6 +1,7 @@
 package main
 
 import (
+	"encoding/json"
 	"flag"
 	"fmt"
 	"os"
@@ -25,6 +26,7 @@ func main() {
 	tier := flag.String("tier", "", "quick|thorough (default: $VERIF_TIER or quick)")
 	list := flag.Bool("list", false, "list properties")
 	dump := flag.String("dump", "", "debug: dump SSA of pkg:func (e.g. proxy:(*request).OnResult)")
+	selftest := flag.String("selftest", "", "thorough tier: JSON summary of the sensitivity self-test to embed in the evidence")
 	flag.Parse()
 	if *dump != "" {
 		p := loadProgram(loadOpts{Dir: *repo})
@@ -53,8 +55,11 @@ func main() {
 		*tier = "quick"
 	}
 	seed, _ := strconv.Atoi(os.Getenv("VERIF_SEED"))
+	selftestFile = *selftest
 	os.Exit(run(*prop, *repo, *verif, *tier, seed))
 }
+
+var selftestFile string
 
 func run(prop, repo, verif, tier string, seed int) (code int) {
 	start := time.Now()
@@ -105,5 +110,13 @@ func run(prop, repo, verif, tier string, seed int) (code int) {
 		}
 	}
 	extra["program_variants"] = variants
+	if selftestFile != "" {
+		if b, err := os.ReadFile(selftestFile); err == nil {
+			var st map[string]interface{}
+			if json.Unmarshal(b, &st) == nil {
+				extra["sensitivity_selftest"] = st
+			}
+		}
+	}
 	return first.finish(verif, tier, seed, start, extra)
 }
